@@ -115,7 +115,7 @@ Lemma add_naive_fixed W f hours minutes seconds us : wall_in_range W = true ->
   let total := td_total_us 0 hours minutes seconds us in
   -999999999 <= total / us_per_day <= 999999999 ->
   add_naive W f 0 0 0 0 hours minutes seconds us =
-  if wall_in_range (W + total) then Ok (W + total, false) else Raise E_OverflowError.
+  if wall_in_range (W + total) then Ok (W + total, true) else Raise E_OverflowError.
 Proof.
   intros Hr total Hlim. unfold add_naive. rewrite (add_duration_fixed _ _ _ _ _ Hr Hlim). fold total.
   destruct (wall_in_range (W + total)); reflexivity.
